@@ -22,6 +22,7 @@ import time
 
 HERE = os.path.dirname(os.path.abspath(__file__))
 VERIF = os.path.dirname(HERE)
+OUT = os.environ.get('VERIF_OUT', VERIF)     # evidence/ and replays/ go here
 if VERIF not in sys.path:
     sys.path.insert(0, VERIF)
 
@@ -258,14 +259,14 @@ def finish(prop, tier, mod, base_seed, results, wall, harness_errors, planned, t
         'wall_s': round(wall, 2),
         'violations': len(unknown),
     }
-    os.makedirs(os.path.join(VERIF, 'evidence'), exist_ok=True)
-    with open(os.path.join(VERIF, 'evidence', prop + '.json'), 'w') as f:
+    os.makedirs(os.path.join(OUT, 'evidence'), exist_ok=True)
+    with open(os.path.join(OUT, 'evidence', prop + '.json'), 'w') as f:
         json.dump(ev, f, indent=1, ensure_ascii=False, default=str)
     # report -----------------------------------------------------------------------------
     for kid, rs in sorted(known_hits.items()):
         k = next(x for x in known if x['id'] == kid)
-        print('KNOWN-FINDING: property=%s %s (hit %d times, e.g. seed %d)'
-              % (prop, k['what'], len(rs), rs[0]['seed']))
+        print('KNOWN-FINDING: property=%s %s (hit in %d runs, e.g. seed %d)'
+              % (k['property'], k['what'], len(rs), rs[0]['seed']))
     rc = 0
     if unknown:
         r = unknown[0]
@@ -294,7 +295,7 @@ def finish(prop, tier, mod, base_seed, results, wall, harness_errors, planned, t
 
 
 def write_replay(prop, mod, r):
-    os.makedirs(os.path.join(VERIF, 'replays'), exist_ok=True)
+    os.makedirs(os.path.join(OUT, 'replays'), exist_ok=True)
     obj = dict(r.get('replay') or {})
     obj.update({'format': 'simwn-replay-1', 'property': prop, 'seed': r['seed'],
                 'hashseed': HASH_CLASSES[hash_class(r['seed'])],
@@ -306,7 +307,7 @@ def write_replay(prop, mod, r):
                 'VERIF_MINIMISE_S', '60')))
         except Exception as e:          # minimisation is best effort
             obj['minimise_error'] = repr(e)
-    path = os.path.join(VERIF, 'replays', '%s-%d.json' % (prop, r['seed']))
+    path = os.path.join(OUT, 'replays', '%s-%d.json' % (prop, r['seed']))
     with open(path, 'w') as f:
         json.dump(obj, f, indent=1, ensure_ascii=False, default=str)
     return path
